@@ -1340,3 +1340,165 @@ func enclosingLoop(b *ssa.BasicBlock) *ssa.BasicBlock {
 	}
 	return best
 }
+
+// ---- merge: column layout bookkeeping and the discarded-row set ----
+
+func init() {
+	register(&Rule{
+		ID: "C05-e", Template: "T10 agreement (positions and position-keyed sets move together)",
+		Doc: "The per-layer Added / Removed / Moved sets of diff.ColDiff are keyed by position in ColDiff.Names. In CompareColumns, once a layer has been added (addLayer) every later step that can reorder or replace Names (any function of pkg/diff reachable from it in the call graph that stores into Names or its elements — today only Swap, driven by sort.Stable in hoistPKToStart) also re-keys all three sets. Otherwise a column added or dropped in front of the key keeps its pre-hoist position and designates a different column: the merge drops the key column, or treats a removed column as an edited cell.",
+		Min: 1,
+		Run: func(p *Program, r *RuleResult) error {
+			cc, err := p.SSAFunc("pkg/diff.CompareColumns")
+			if err != nil {
+				return err
+			}
+			addLayer, err := p.MustFuncs("pkg/diff.(*ColDiff).addLayer")
+			if err != nil {
+				return err
+			}
+			var fields [4]*types.Var
+			for i, n := range []string{"Names", "Added", "Removed", "Moved"} {
+				if fields[i], err = p.Field("pkg/diff.ColDiff." + n); err != nil {
+					return err
+				}
+			}
+			names := fields[0]
+			writesNames := func(fn *ssa.Function) bool {
+				for _, b := range fn.Blocks {
+					for _, in := range b.Instrs {
+						st, ok := in.(*ssa.Store)
+						if !ok {
+							continue
+						}
+						switch a := st.Addr.(type) {
+						case *ssa.FieldAddr:
+							if structField(a.X.Type(), a.Field) == names {
+								return true
+							}
+						case *ssa.IndexAddr:
+							if derivesFromField(a.X, names) {
+								return true
+							}
+						}
+					}
+				}
+				return false
+			}
+			rekeys := func(fn *ssa.Function) (bool, string) {
+				for _, f := range fields[1:] {
+					found := false
+					for _, b := range fn.Blocks {
+						for _, in := range b.Instrs {
+							if mu, ok := in.(*ssa.MapUpdate); ok && derivesFromField(mu.Map, f) {
+								found = true
+							}
+						}
+					}
+					if !found {
+						return false, f.Name()
+					}
+				}
+				return true, ""
+			}
+			r.Analysed = 1
+			adds := callsTo(cc, addLayer)
+			if len(adds) == 0 {
+				r.missing("pkg/diff.CompareColumns|addLayer", "CompareColumns no longer calls addLayer")
+				return nil
+			}
+			diffPkg := modPath + "/pkg/diff"
+			n := 0
+			eachCall(cc, func(c ssa.CallInstruction) {
+				sc := c.Common().StaticCallee()
+				if sc == nil || fnPkgPath(sc) != diffPkg || addLayer[calleeFunc(c)] {
+					return
+				}
+				after := false
+				for _, a := range adds {
+					if _, reach := reachAfter(cc, a, c, nil, nil); reach {
+						after = true
+					}
+				}
+				if !after {
+					return
+				}
+				key := fmt.Sprintf("%s|after-addLayer#%d", callKey(cc, c), n)
+				n++
+				what := "a step after addLayer that reorders Names re-keys Added, Removed and Moved"
+				bad := ""
+				for _, w := range sortedFuncs(p.Reachable(p.CG, sc)) {
+					if fnPkgPath(w) != diffPkg || !writesNames(w) {
+						continue
+					}
+					if ok, missing := rekeys(w); !ok {
+						bad = fmt.Sprintf("%s (reached from %s) changes ColDiff.Names but does not update ColDiff.%s: the per-layer sets keep pre-move positions", funcName(w), funcName(sc), missing)
+					}
+				}
+				if bad != "" {
+					r.bad(key, p.Rel(c.Pos()), what, bad)
+				} else {
+					r.ok(key, p.Rel(c.Pos()), what)
+				}
+			})
+			return nil
+		},
+	})
+
+	register(&Rule{
+		ID: "C05-d", Template: "provenance (the discarded-row set starts empty)",
+		Doc: "Rows untouched by every branch are kept: the on-disk set of discarded keys that the merge's row collector consults (index.NewHashSet loads whatever the file already holds) is backed, at every production call site, by a file that is new by construction — ioutil.TempFile / os.CreateTemp / testutils.TempFile, os.Create, or os.OpenFile with O_TRUNC or O_EXCL. A file with a predictable name that may survive an interrupted merge makes the next merge skip base rows nobody touched.",
+		Min: 1,
+		Run: func(p *Program, r *RuleResult) error {
+			nhs, err := p.MustFuncs("pkg/index.NewHashSet")
+			if err != nil {
+				return err
+			}
+			fns := p.ProdFuncs()
+			r.Analysed = len(fns)
+			fresh := map[string]bool{"io/ioutil.TempFile": true, "os.CreateTemp": true, "os.Create": true, modPath + "/pkg/testutils.TempFile": true}
+			for _, fn := range fns {
+				for _, c := range callsTo(fn, nhs) {
+					key := callKey(fn, c)
+					what := "the hash set's backing file is new by construction"
+					args := c.Common().Args
+					if len(args) == 0 {
+						continue
+					}
+					ok, why := false, "the backing store is not the result of a temp-file constructor"
+					for v := range backward(args[0], nil) {
+						call, isCall := v.(*ssa.Call)
+						if !isCall {
+							continue
+						}
+						f := calleeFunc(call)
+						if f == nil || f.Pkg() == nil {
+							continue
+						}
+						full := f.Pkg().Path() + "." + f.Name()
+						if fresh[full] {
+							ok = true
+						}
+						if full == "os.OpenFile" && len(call.Call.Args) >= 2 {
+							if flags, isC := constInt(call.Call.Args[1]); isC {
+								if flags&int64(0x200) != 0 || flags&int64(0x80) != 0 { // O_TRUNC, O_EXCL (linux)
+									ok = true
+								} else {
+									why = "os.OpenFile without O_TRUNC / O_EXCL: an existing file (left by an interrupted merge) is loaded as the initial set"
+								}
+							} else {
+								why = "os.OpenFile with non-constant flags"
+							}
+						}
+					}
+					if ok {
+						r.ok(key, p.Rel(c.Pos()), what)
+					} else {
+						r.bad(key, p.Rel(c.Pos()), what, why)
+					}
+				}
+			}
+			return nil
+		},
+	})
+}
